@@ -511,7 +511,19 @@ sys.exit(M.main(argv))
 '''
 
 
-def invoke_subprocess(app, argv, cwd, step=None, locale=None):
+_SCRIPT = r'''
+import sys
+name = sys.argv[1]
+sys.argv = [name] + sys.argv[2:]          # what the installed console script of that name runs under
+if name == 'git-nbmergedriver':
+    from nbdime.vcs.git.mergedriver import main
+else:
+    from nbdime.nbmergeapp import main
+sys.exit(main())
+'''
+
+
+def invoke_subprocess(app, argv, cwd, step=None, locale=None, script_name=None):
     """-> (returncode, stdout bytes, stderr text); locale='C': a process whose locale encoding is not UTF-8
     (LC_ALL=C with Python's UTF-8 mode and locale coercion switched off -- what a legacy 8-bit locale or a Windows code page is)"""
     repo = os.environ.get('NBDIME_REPO', '/repo')
@@ -523,7 +535,9 @@ def invoke_subprocess(app, argv, cwd, step=None, locale=None):
         env.update({'LC_ALL': 'C', 'LANG': 'C', 'PYTHONUTF8': '0', 'PYTHONCOERCECLOCALE': '0'})
         del env['PYTHONIOENCODING']
     py = sys.executable or os.path.join(_HERE, '.venv', 'bin', 'python')
-    if step:
+    if script_name:
+        cmd = [py, '-c', _SCRIPT, script_name] + list(argv)
+    elif step:
         cmd = [py, '-c', _BOOT, app, step] + list(argv)
     else:
         cmd = [py, '-m', 'nbdime.vcs.git.mergedriver' if app == 'driver' else 'nbdime.nbmergeapp'] + list(argv)
